@@ -381,3 +381,63 @@ func TestC11_LRULinearizable(t *testing.T) {
 		rec.Case(shared, map[string]any{"capacity": capacity, "goroutines": g, "ops_each": k, "g0": fmt.Sprintf("%+v", prog[0])}, label)
 	})
 }
+
+// TestC11_FirstUse releases G goroutines at once onto a FRESH monitored database, each
+// issuing one monitored search first: lazily created shared state (metric series, cache
+// entries) is created under contention, which is where an unsynchronised get-or-create
+// loses events without any data race.
+func TestC11_FirstUse(t *testing.T) {
+	rec := stat.For("C11")
+	rec.Rule("first-use contention: G in [2,16] goroutines released together by a barrier onto a fresh MonitoredDatabase, each doing 1-3 monitored / cached searches, repeated for many fresh instances per case. Oracle: answers equal the sequential ones and the monitor totals equal the number of monitored searches (no increment lost while the series are being created).")
+	rapid.Check(t, func(t *rapid.T) {
+		cmds, _ := gen.DB(t, gen.CmdOpts{}, []int{0, 0, 2, 6, 0})
+		db := gen.Load(t, cmds)
+		toks := gen.Tokens(cmds)
+		if len(toks) == 0 {
+			toks = []string{"find"}
+		}
+		q := gen.TextOf(rapid.SampledFrom(toks), 1, 2).Draw(t, "q")
+		opt := database.SearchOptions{Limit: 5, UseNLP: rapid.Bool().Draw(t, "nlp"), UseFuzzy: true}
+		want := rank(db, db.SearchUniversal(q, opt))
+		g := rapid.IntRange(2, 16).Draw(t, "goroutines")
+		each := rapid.IntRange(1, 3).Draw(t, "each")
+		procs := rapid.SampledFrom([]int{2, 4, 16}).Draw(t, "gomaxprocs")
+		prev := runtime.GOMAXPROCS(procs)
+		defer runtime.GOMAXPROCS(prev)
+		rounds := 25
+		for round := 0; round < rounds; round++ {
+			mdb := database.NewMonitoredDatabase(db)
+			var wg sync.WaitGroup
+			var mu sync.Mutex
+			var bad []string
+			start := make(chan struct{})
+			for i := 0; i < g; i++ {
+				wg.Add(1)
+				go func(i int) {
+					defer wg.Done()
+					<-start
+					for j := 0; j < each; j++ {
+						got := rank(db, mdb.SearchWithOptionsAndMonitoring(q, opt))
+						if !rankEq(got, want) {
+							mu.Lock()
+							bad = append(bad, fmt.Sprintf("goroutine %d search %d: got %s, alone it answers %s", i, j, rankStr(got), rankStr(want)))
+							mu.Unlock()
+						}
+					}
+				}(i)
+			}
+			close(start)
+			wg.Wait()
+			n := g * each
+			sum, _ := monitorTotals2(mdb)
+			if int(sum["searches_total"]) != n || int(sum["cache_hits_total"]+sum["cache_misses_total"]) != n || int(sum["query_length_count"]) != n {
+				bad = append(bad, fmt.Sprintf("after %d concurrent first monitored searches: searches_total=%v hits+misses=%v query_length_count=%v", n, sum["searches_total"], sum["cache_hits_total"]+sum["cache_misses_total"], sum["query_length_count"]))
+			}
+			if len(bad) > 0 {
+				saveCase("C11", "firstuse", map[string]any{"test": "TestC11_FirstUse", "note": "schedule-dependent; re-run the check", "goroutines": g, "each": each, "query": q, "failures": bad})
+				t.Fatalf("round %d, %d goroutines x %d searches on a fresh monitored database (GOMAXPROCS=%d, query %q):\n%s", round, g, each, procs, q, strings.Join(bad, "\n"))
+			}
+		}
+		rec.Case(true, map[string]any{"first_use": true, "goroutines": g, "each": each, "rounds": rounds, "gomaxprocs": procs, "query": q}, "first-use")
+	})
+}
